@@ -2,7 +2,7 @@
    Statements only (copied from the lemma libraries); every proof is a bare
    `exact`; see the cited files in coq/proofs for the proofs. *)
 From Coq Require Import List NArith ZArith Bool Arith Sorting.Sorted Sorting.Permutation.
-From D2P Require Import Str Err Xml TableTypes Tables Fmt Bullets Merge Collector Walk ShapeFacts TokFacts FrameFacts BulletsFacts LineageFacts.
+From D2P Require Import Str Err Xml TableTypes Tables Fmt Bullets Merge Collector Walk ShapeFacts TokFacts FrameFacts BulletsFacts LineageFacts Predicates SeqFacts Iter Output.
 Import ListNotations.
 
 (* for EVERY table written as tbl/tr/tc/p directly nested (any number of rows, cells, paragraphs, any merged cells, any inline content), walked from any reachable state in any part: every paragraph it contributes reports the lineage (tbl, tr, tc, p) - or is the empty fill paragraph of a blanked merged position *)
@@ -105,3 +105,53 @@ Theorem C05_non_vacuous :
                p_lineage p = (Some s_tbl, Some s_tr, Some s_tc, Some [112]).
 Proof. exact flat_tbl_example. Qed.
 Print Assumptions C05_non_vacuous.
+
+(* is_tbl / is_tr / is_tc are true for a table, row, cell whose first paragraph reports the cell lineage *)
+Theorem C05_predicates_true :
+  forall p,
+  (exists x, p_lineage p = (Some Predicates.s_tbl, Some Predicates.s_tr, Some Predicates.s_tc, Some x)) ->
+  is_tc (RL [RA p]) = Ok true /\ is_tr (RL [RL [RA p]]) = Ok true
+  /\ is_tbl (RL [RL [RL [RA p]]]) = Ok true.
+Proof. exact predicates_true_for_cell_pars. Qed.
+Print Assumptions C05_predicates_true.
+
+(* and false when the first paragraph is a free paragraph *)
+Theorem C05_predicates_false :
+  forall p,
+  lin_slot 1%nat (p_lineage p) = None -> lin_slot 2%nat (p_lineage p) = None ->
+  lin_slot 3%nat (p_lineage p) = None ->
+  is_tc (RL [RA p]) = Ok false /\ is_tr (RL [RL [RA p]]) = Ok false
+  /\ is_tbl (RL [RL [RL [RA p]]]) = Ok false.
+Proof. exact predicates_false_for_free_pars. Qed.
+Print Assumptions C05_predicates_false.
+
+(* and false for empty items *)
+Theorem C05_predicates_empty :
+  is_tbl (RL []) = Ok false /\ is_tr (RL []) = Ok false /\ is_tc (RL []) = Ok false
+  /\ is_tbl (RL [RL []]) = Ok false.
+Proof. exact predicates_empty. Qed.
+Print Assumptions C05_predicates_empty.
+
+(* a whole part made of paragraphs and directly nested tables, in any order and number: every record is a cell paragraph with lineage (tbl,tr,tc,p) or a free paragraph whose slot 1 is empty - so no paragraph outside every table reports tbl *)
+Theorem C05_body_of_blocks :
+  forall v e ks path s',
+  mem_str (e_ptag e) depth_none_tags = true -> forallb block ks = true ->
+  walk v path (AE e ks) init_cst = Ok s' ->
+  exists new, pars_at 4%nat (c_tree s') = Ok new /\ Inv s'
+    /\ slot 1%nat (c_lineage s') = None /\ Forall free_or_cell new.
+Proof. exact body_of_blocks. Qed.
+Print Assumptions C05_body_of_blocks.
+
+(* closing a table clears the tbl slot *)
+Theorem C05_table_close_clears_tbl :
+  forall v t path s s',
+  flat_tbl t = true -> Inv s -> walk v path t s = Ok s' -> slot 1%nat (c_lineage s') = None.
+Proof. exact tbl_closed_clears_slot1. Qed.
+Print Assumptions C05_table_close_clears_tbl.
+
+(* inline content directly under w:tc (outside any paragraph) leaves an implicit paragraph open after the table: the stronger statement with c_open = [] is false *)
+Theorem C05_blocks_open_refuted :
+  forallb block [cx_tbl2] = true /\ Inv init_cst /\ c_open init_cst = [] /\
+  exists s', kids_loop cx_env [] [cx_tbl2] 0%nat init_cst = Ok s' /\ c_open s' <> [].
+Proof. exact blocks_walk_counterexample. Qed.
+Print Assumptions C05_blocks_open_refuted.
